@@ -679,6 +679,10 @@ FORMS = [
 CORE = ["+", "J", "j", "h", "t", "ḣ", "ṫ", "Ṙ", "s", "L", "f", "∑", "G", "U", "i", "Ẏ", "Ż", "Z", "ẋ", "ṁ", "w", "W",
         "$", "_", "ż", "›", "ƛ›;", "v›"]
 LITERALS = ["0 ", "1 ", "9 ", "⁽+", "⁽›"]
+# infinite lists (flagged infinite by their constructors) as the copied value: the sequence is drawn from the tokens that
+# finish on an infinite list -- prefixes, single items, membership of values far down / absent-but-bounded, lazy maps
+INF_VALUES = [("Þp", "infinite"), ("ÞF", "infinite"), ("Þ!", "infinite"), ("Þ∞", "infinite"), ("⁽›1Ḟ", "infinite"), ("Þp›", "infinite"), ("Þ∞ƛd;", "infinite")]
+INF_ALPHA = ["h", "ḣ", "3 i", "0 i", "5 Ẏ", "2 Ẏ", "12 Ẏ", "20 c", "7 c", "1 c", "30 c", "24 c", "›", "d", "ƛ›;", "v›", "_", ":", "$", "9 Ż", "t_"[:0] or "4 i"]
 CORE3 = ["+", "J", "h", "t", "Ṙ", "s", "L", "f", "U", "i", "Ẏ", "Z", "w", "$"]
 LITERALS3 = ["0 ", "9 ", "⁽+"]
 
@@ -751,7 +755,53 @@ def expected_value_(value):
     stack = []
     ns.update(stack=stack, ctx=fresh_ctx(stack))
     exec(code_of(value), ns)
-    return canon(stack[-1])
+    return canon(stack[-1], cap=INF_CAP) if value in {v for v, _ in INF_VALUES} else canon(stack[-1])
+
+
+INF_CAP = 40
+
+
+def inf_copy_case(item):
+    return own_alarm(inf_copy_case_, item, 1.5)
+
+
+def inf_copy_case_(item):
+    """like copy_case_ for an infinite value: the references are compared on their first INF_CAP items; the sequence's own
+    results are dropped unforced (forcing an infinite result would not finish)"""
+    vi, fi, seq = item
+    value = INF_VALUES[vi][0]
+    name, prefix, suffix, nrefs = FORMS[fi]
+    want = expected_value(value)
+
+    def go(sq):
+        ns = dict(_ns())
+        stack = []
+        ctx = fresh_ctx(stack)
+        ctx.inputs = [[[2, 3], 0]]
+        ns.update(stack=stack, ctx=ctx)
+        err = None
+        with contextlib.redirect_stdout(io.StringIO()):
+            exec(code_of(value + prefix), ns)
+            try:
+                for tok in sq:
+                    exec(code_of(tok), ns)
+            except _Late:
+                raise
+            except BaseException as e:  # noqa: BLE001
+                err = type(e).__name__
+            del ns["stack"][:]
+            exec(code_of(suffix), ns)
+        return [canon(x, cap=INF_CAP) for x in ns["stack"][-nrefs:]], err
+    got, err = go(seq)
+    if all(g == want for g in got):
+        return ("ok", err, None)
+    blame = seq
+    for n in range(1, len(seq)):
+        g2, _ = go(seq[:n])
+        if not all(g == want for g in g2):
+            blame = seq[:n]
+            break
+    return ("bad", err, {"blame": list(blame), "want": show(want), "got": [show(g) for g in got]})
 
 
 def copy_case_(item):
@@ -840,6 +890,40 @@ def part2(env, E, static):
             k = elem_key_of(d["blame"][-1], keys)
             txt, ins = show_seq(seq)
             failing[k].append((VALUES[vi][0] + FORMS[fi][1] + txt + FORMS[fi][2], FORMS[fi][0], d, ins))
+    # infinite values
+    inf_forms = [fi for fi, f in enumerate(FORMS) if f[0] in (("dup-keep-original", "dup-keep-copy", "variable", "register") if not env.thorough
+                                                              else tuple(x[0] for x in FORMS))]
+    # first every single token; a token that does not finish on a value is left out of that value's pairs
+    singles = [(vi, inf_forms[0], (a,)) for vi in range(len(INF_VALUES)) for a in INF_ALPHA]
+    sres = V.pmap(inf_copy_case, singles, timeout=900.0, procs=min(V.NPROC, 8), chunksize=8)
+    hangs = {(vi, sq[0]) for (vi, fi, sq), (st, val) in zip(singles, sres) if st != "ok" or val[0] == "timeout"}
+    inf_items = []
+    for vi in range(len(INF_VALUES)):
+        alpha_v = [a for a in INF_ALPHA if (vi, a) not in hangs]
+        seqs_v = [(a,) for a in alpha_v] + [(a, b) for a in alpha_v for b in alpha_v]
+        if not env.thorough:
+            seqs_v = [sq for k, sq in enumerate(seqs_v) if len(sq) == 1 or (k + env.seed) % 3 == 0]
+        inf_items += [(vi, fi, sq) for fi in inf_forms for sq in seqs_v]
+    inf_res = V.pmap(inf_copy_case, inf_items, timeout=900.0, procs=min(V.NPROC, 8), chunksize=64)
+    inf_stat = collections.Counter()
+    for (vi, fi, seq), (st, val) in zip(inf_items, inf_res):
+        if st != "ok":
+            inf_stat["harness"] += 1
+            continue
+        if val[0] == "timeout":
+            inf_stat["timeout"] += 1
+            continue
+        status, err, d = val
+        inf_stat["raised" if err else "ran"] += 1
+        if not err:
+            nontrivial.append(f"pinf:{vi}:{fi}:{''.join(seq)}")
+        if status == "bad":
+            inf_stat["bad"] += 1
+            k = elem_key_of(d["blame"][-1].split()[-1], keys)
+            failing[k].append((INF_VALUES[vi][0] + FORMS[fi][1] + "".join(seq) + FORMS[fi][2], FORMS[fi][0], d, []))
+    env.note("part2_infinite_values", {"programs": len(inf_items), "values": [v for v, _ in INF_VALUES], "alphabet": INF_ALPHA,
+                                       "compared_prefix": INF_CAP, "outcomes": dict(inf_stat),
+                                       "tokens_that_do_not_finish": sorted(f"{INF_VALUES[vi][0]} {a}" for vi, a in hangs)})
     for k, lst in failing.items():
         lst.sort(key=lambda x: len(x[0]) + sum(len(i) for i in x[3]))
         prog, form, d, ins = lst[0]
@@ -853,7 +937,7 @@ def part2(env, E, static):
         env.fail(inp, msg, cls=f"C10:{k}")
         if k in keys and k not in static["flagged_elements"]:
             env.disagree("mutation-summary", inp, "summary: clean", msg)
-    env.count(len(items), nontrivial)
+    env.count(len(items) + len(inf_items), nontrivial)
     env.note("part2", {"programs": len(items), "by_sequence_length": dict(by_len), "alphabet": alpha, "values": VALUES,
                        "forms": [f[0] for f in FORMS], "seconds": round(time.time() - t0, 1), "timeouts": timeouts,
                        "sequence_raised": sum(errs.values()), "error_classes": dict(errs.most_common(8)),
